@@ -90,7 +90,7 @@ prop("C06",
      technique="Kani contract harnesses: Memory operations over the abstract view from arbitrary well-formed states; window invariant and in-window dereferences of every threaded op (buffer == window, so any stray access is out of bounds for CBMC)",
      design_ref="DESIGN.md section 4-U2/U5, 5-C06",
      text="Tape API: every operation stays inside the owned block and preserves the view across growth in either or both directions (bounded in size, unbounded in history). Threaded ops: window invariant established by enter_ops, preserved by the checked right move incl. growth, every operand access inside the window; temporaries array sized max(temps,2).",
-     note="Relative to C11 (operands inside the declared window, temp index < temps). Proved (Verus unit u11_window): the two primitives of the window analysis, bc::Analysis::{accessed, written}, put every offset they are given inside [min_accessed, max_accessed] and only ever grow the window. The traversal that feeds them (Analysis::analyze) and the rest of C11 are not discharged by a verifier -- covered ONLY by a BOUNDED STAND-IN (unit n2_bc_passes/translate_shape: the window, temporaries count and branch targets of the bytecode bc::CodeGen::translate generates for a fixed pseudo-random sample of IR programs; counted separately, never as proved). The JIT's checked move (probe of the far window edge against the context's bounds, extend call, pointer re-basing) is decided by unit u6 over all tape geometries. The bytecode interpreter's checked LEFT move/scan that grows below (pointer before the allocation start is not representable in CBMC) and its checked scan loop (Kani timeout) are covered ONLY by a BOUNDED STAND-IN: unit n5_checked_moves runs the real movl/movr/scanl/scanr::<_, true> under MIRI on enumerated tape geometries, windows, shifts and run lengths (Miri reports any access outside a live allocation) and checks pointer displacement, view preservation and window accessibility; counted separately, never as proved.")
+     note="Relative to C11 (operands inside the declared window, temp index < temps). Proved (Verus unit u11_window): the two primitives of the window analysis, bc::Analysis::{accessed, written}, put every offset they are given inside [min_accessed, max_accessed] and only ever grow the window. The traversal that feeds them (Analysis::analyze) and the rest of C11 are not discharged by a verifier -- covered ONLY by a BOUNDED STAND-IN (unit n2_bc_passes/translate_shape: the window, temporaries count and branch targets of the bytecode bc::CodeGen::translate generates for a fixed pseudo-random sample of IR programs; counted separately, never as proved). The JIT's checked move (probe of the far window edge against the context's bounds, extend call, pointer re-basing) is decided by unit u6 over all tape geometries. The bytecode interpreter's checked LEFT move/scan that grows below (pointer before the allocation start is not representable in CBMC) and its checked scan loop (Kani timeout) are covered ONLY by a BOUNDED STAND-IN: unit n5_checked_moves runs the real movl/movr/scanl/scanr::<_, true> under MIRI on enumerated tape geometries, windows, shifts and run lengths (Miri reports any access outside a live allocation) and checks pointer displacement, view preservation and window accessibility; counted separately, never as proved. Likewise unit n8_trip_counts for the consumer: the trip count of every 8-bit counting loop (all start values x all increments, boundary pairs at the wider widths), observed end to end on the optimised program (IR and bytecode interpreters, levels 1-3).")
 
 prop("C10",
      units=[("kani", "u5_bcint_ops", None), ("kani", "u6_jit", None)],
